@@ -387,16 +387,25 @@ pub async fn scenario(events: Vec<Ev>) -> Obs {
                 let handle = if is_sender { snd_handle } else { rcv_handle };
                 call_results.push(format!("{which}() -> {:?}", res.as_ref().map(|r| r.as_ref().map_err(|e| e.to_string()))));
                 // what the peer's detach (answer or earlier, unanswered) carried
+                // (the peer numbers its handles like the library in this scenario: the detach of THIS link)
                 let peer_detach = c.peer.trace.iter().rev().find_map(|w| match (&w.body, w.dir) {
-                    (Body::Perf(Performative::Detach(d)), Dirn::FromPeer) => Some(d.clone()),
+                    (Body::Perf(Performative::Detach(d)), Dirn::FromPeer) if Some(d.handle.0) == handle => Some(d.clone()),
                     _ => None,
                 });
                 if which != "drop" {
                     match &res {
                         None => {
                             obs.pending_calls += 1;
-                            let peer_answered = c.peer.trace[mark..].iter().any(|w| w.dir == Dirn::FromPeer && matches!(&w.body, Body::Perf(Performative::Detach(_))))
-                                || (is_sender && peer_detached_s.is_some());
+                            // the peer's detach for this call arrived: in this step, or earlier and not yet answered by
+                            // the library (a detach that an earlier send() already answered is used up: a later close()
+                            // starts a new exchange, which a silent peer may leave unanswered)
+                            let earlier_unanswered = is_sender
+                                && match (&peer_detached_s, handle) {
+                                    (Some((_, _, at)), Some(hd)) => lib_detach(&c.peer.trace[..mark], *at, hd).is_none(),
+                                    _ => false,
+                                };
+                            let peer_answered = c.peer.trace[mark..].iter().any(|w| w.dir == Dirn::FromPeer && matches!(&w.body, Body::Perf(Performative::Detach(d)) if Some(d.handle.0) == handle))
+                                || earlier_unanswered;
                             if peer_answered {
                                 obs.fails.push((format!("{which}-hangs"), format!("{which}() did not return although the peer's detach had arrived")));
                             }
